@@ -2245,6 +2245,182 @@ def scale_streams(ctx, lim, sampled):
 
 
 # ---------------------------------------------------------------------------------------------------------------------
+# The SIGN of a zero result (known finding F44).  Everywhere else results are compared by value (canon_num maps -0.0 to 0: value_compare says
+# they are equal); but value_string / value_json print "-0" for -0.0 and "0" for 0, so an operation that returns int 0 for the int spelling
+# and -0.0 for the float spelling is visible to a script.  This stream compares sign-SENSITIVELY.  Implementation-side oracle only: the Lean
+# models are over rationals (one zero) and cannot express a negative zero.
+# ---------------------------------------------------------------------------------------------------------------------
+
+ZS_SPELLINGS = ('int', 'float', 'mix', 'xim')
+ZS_INTS = [0, 1, -1, 2, -2, 3, -3, 5, -5, 6, -6, 10, 94906267, -94906267, 10 ** 12 + 1, -(10 ** 15 - 1), 10 ** 15 - 1]
+ZS_FIXED = [{'f': '-0.0'}, {'f': '0.5'}, {'f': '-0.5'}, {'f': '5e-324'}, {'f': '-5e-324'}]      # floats in every spelling (not integral / not an int's float)
+ZS_PAIR = [N(0), {'f': '-0.0'}, N(1), N(-1), N(2), N(-3), N(6), {'f': '0.5'}, {'f': '-0.5'}, N(94906267)]
+# expression text over the variables a, b: how a zero of either sign travels on (text, max / min, rounding, concatenation, a second operator)
+ZS_EXPRS = ['text(-a)', "'' + (-a)", "-a + ''", 'max(-a, 0)', 'min(-a, b)', 'text(a % b)', "'' + (a % b)", '-(a - a)', '-(a * 0)', 'a * b', 'text(a * b)', 'a / b', 'a - a', '0 - a',
+            'a + (-a)', 'a + b', 'a - b', 'round(-a)', 'fixed(-a, 1)', 'abs(-a)', '-a == 0', 'if(-a, 1, 2)', 'sqrt(a * a) - abs(a)', 'floor(a / b)', 'ceil(a / b)', 'a ** b',
+            'text(a ** 2)', 'max(a, b)', 'min(a, b)', 'a * b - a * b', 'text(0 - (a - a))']
+ZS_DATAEXPRS = ['-a', 'a % b', 'a * b', 'a - a', '0 - a', 'a / b', 'max(-a, 0)']
+# propagation of F44 through further expression text: expression -> what makes it an instance of the finding
+#   'neg0': unary minus applied to the variable a = integral 0;  'negdiff': unary minus applied to a - a / a * 0 (an integral zero for every integral a);
+#   'mod': a % b with integral a, b, b < 0, a % b == 0
+F44_PROPAGATION = {'text(-a)': 'neg0', "'' + (-a)": 'neg0', "-a + ''": 'neg0', 'max(-a, 0)': 'neg0', 'min(-a, b)': 'neg0', '-a': 'neg0',
+                   'text(a % b)': 'mod', "'' + (a % b)": 'mod', 'a % b': 'mod', '-(a - a)': 'negdiff'}
+
+
+_R_NEGZERO_TEXT = re.compile(r'(?<![\w.])-0(?![\w.])')
+
+
+def zcanon(v, depth=0):
+    """canon, but a zero keeps its sign (int 0 and 0.0: '+', -0.0: '-')."""
+    if isinstance(v, (int, float)) and not isinstance(v, bool):
+        if v == 0:
+            return ['n', 0, '-' if isinstance(v, float) and math.copysign(1.0, v) < 0 else '+']
+        return canon_num(v)
+    if depth < 12 and isinstance(v, (list, tuple)):
+        return ['a', [zcanon(x, depth + 1) for x in v]]
+    if depth < 12 and isinstance(v, dict):
+        return ['o', [[k if isinstance(k, str) else ['key', repr(k)], zcanon(x, depth + 1)] for k, x in v.items()]]
+    return canon(v)
+
+
+def zstrip(c):
+    """A zcanon form without the zero signs."""
+    if isinstance(c, list):
+        if len(c) == 3 and c[0] == 'n' and c[1] == 0 and c[2] in ('+', '-'):
+            return ['n', 0]
+        if len(c) == 2 and c[0] == 's' and isinstance(c[1], str):
+            return ['s', _R_NEGZERO_TEXT.sub('0', c[1])]      # the text of a zero: '-0' where the other spelling has '0'
+        return [zstrip(x) for x in c]
+    return c
+
+
+def zero_sign_only(x, y):
+    """The two outcomes differ, and only in the sign of zero results (the text then differs in '-0' vs '0' at most)."""
+    if not isinstance(x, dict) or not isinstance(y, dict) or 'result' not in x or 'result' not in y:
+        return False
+    return x['result'] != y['result'] and zstrip(x['result']) == zstrip(y['result'])
+
+
+def run_zsign(case, sp):
+    m = fw.impl()
+    rt, lib, val = m['runtime'], m['library'], m['value']
+    args = build_args(case['args'], sp)
+    form, op = case['form'], case['op']
+    g = {}
+    try:
+        with cpu_limit('zs:' + op):
+            if form == 'dataexpr':
+                row = {'a': args[0], 'b': args[1]}
+                res = lib.SCRIPT_FUNCTIONS['dataCalculatedField']([[row], 'z', op], {'globals': {}, 'maxStatements': 1000, 'statementCount': 0})[0].get('z')
+            else:
+                if form == 'expr':
+                    g.update({'a': args[0], 'b': args[1]})
+                    expr = m['parser'].parse_expression(op)
+                elif form == 'unary':
+                    g['a0'] = args[0]
+                    expr = {'unary': {'op': op, 'expr': {'variable': 'a0'}}}
+                elif form == 'binary':
+                    g.update({'a0': args[0], 'a1': args[1]})
+                    expr = {'binary': {'op': op, 'left': {'variable': 'a0'}, 'right': {'variable': 'a1'}}}
+                else:       # 'call': the library function;  'exprfn': the built-in expression function of that name
+                    if form == 'call':
+                        g[op] = lib.SCRIPT_FUNCTIONS[op]
+                    for i, a in enumerate(args):
+                        g[f'a{i}'] = a
+                    expr = {'function': {'name': op, 'args': [{'variable': f'a{i}'} for i in range(len(args))]}}
+                res = rt.evaluate_expression(expr, {'globals': g, 'maxStatements': 1000, 'statementCount': 0})
+        out = {'result': zcanon(res)}
+        try:
+            out['text'] = val.value_string(res) if not callable(res) else '<function>'
+        except Exception as exc:  # pylint: disable=broad-except
+            out['text'] = ['raised', type(exc).__name__]
+    except CallTimeout:
+        out = {'escaped': 'TIMEOUT'}
+    except Exception as exc:  # pylint: disable=broad-except
+        out = {'escaped': type(exc).__name__}
+    return out
+
+
+def zsign_differs(case):
+    outs = {sp: run_zsign(case, sp) for sp in ZS_SPELLINGS}
+    return any(v != outs['int'] for v in outs.values()), outs
+
+
+def zsign_cases(ctx, rng, names, models):
+    pool = [N(n) for n in ZS_INTS] + ZS_FIXED
+
+    def zc(form, op, args):
+        return {'kind': 'zsign', 'form': form, 'op': op, 'args': list(args)}
+    for op in UN_OPS:
+        for x in pool:
+            yield zc('unary', op, [x])
+    for op in BIN_OPS:
+        for x in pool:
+            for y in pool:
+                if op_safe(op, x, y):
+                    yield zc('binary', op, [x, y])
+    for text in ZS_EXPRS:
+        for x in pool:
+            for y in ZS_PAIR + [N(-5), N(-6), N(3)]:
+                yield zc('expr', text, [x, y])
+    for text in ZS_DATAEXPRS:
+        for x in pool:
+            for y in ZS_PAIR + [N(-5), N(-6)]:
+                yield zc('dataexpr', text, [x, y])
+    # every library function and every built-in expression function: each number-taking position x the pool (the other arguments valid); the
+    # functions of numbers only (math*, number*) and of a sequence of values: the first two positions x the pair pool
+    targets = [('call', name, name) for name in names] + [('exprfn', alias, fname) for alias, fname in sorted(expr_aliases().items())]
+    for form, op, fname in targets:
+        ps = number_positions(fname, models)
+        for p in ps:
+            for x in pool:
+                args = full_args(rng, fname, models, p)
+                args[p] = x
+                yield zc(form, op, tame_ext(fname, args))
+        if len(ps) >= 2 and (fname.startswith(('math', 'number')) or is_sequence_fn(fname, models)):
+            for x in ZS_PAIR:
+                for y in ZS_PAIR:
+                    args = full_args(rng, fname, models, ps[1])
+                    args[ps[0]], args[ps[1]] = x, y
+                    yield zc(form, op, tame_ext(fname, args))
+
+
+def _zs_fname(case):
+    if case['form'] == 'call':
+        return case['op']
+    if case['form'] == 'exprfn':
+        return expr_aliases().get(case['op'])
+    return None
+
+
+def zero_sign_stream(ctx, lim, names, models):
+    st = ctx.stream('zero-sign', 'the SIGN of a zero result: unary - ! and the 14 binary operators x all pairs of %d operands (0, -0.0, +-1 2 3 5 6 10, +-sqrt(2^53), 1e12+1, '
+                                 '+-(1e15-1), +-0.5, +-5e-324: pairs whose quotient / remainder / product / difference is zero or underflows to it); %d expression texts and '
+                                 '%d dataCalculatedField expressions carrying such a zero on (text(-a), max(-a, 0), \'\' + (a %% b), -(a - a), ...); every library function and '
+                                 'every built-in expression function x each number-taking position x the pool, the first two positions of math* / number* / sequence '
+                                 'functions x a pair pool of %d; each in the int / float / both alternating spellings (-0.0 and the fractions are the same float in every '
+                                 'spelling), results compared INCLUDING the sign of every zero (math.copysign, at any depth) and as value_string text. digits >= 23 of '
+                                 'mathRound / numberToFixed left to F15. Implementation-side oracle only (spelling-irrelevant:zero-sign): the Lean models are over '
+                                 'rationals and have no negative zero. Known finding F44: unary - of an integral 0, %% with a zero result under a negative divisor. '
+                                 'non-trivial = an integral number occurs' % (len(ZS_INTS) + len(ZS_FIXED), len(ZS_EXPRS), len(ZS_DATAEXPRS), len(ZS_PAIR)))
+    rng = ctx.rng('zero-sign')
+    for case in zsign_cases(ctx, rng, names, models):
+        fname = _zs_fname(case)
+        if fname and _is_f15({'input': {'kind': 'call', 'fn': fname, 'args': case['args']}}):
+            continue
+        differ, outs = zsign_differs(case)
+        zero = any(isinstance(o.get('result'), list) and o['result'][:2] == ['n', 0] for o in outs.values())
+        st.case(case, nontrivial=sum(count_nums(a) for a in case['args']) > 0,
+                tags=[f'form:{case["form"]}', 'zero-result' if zero else 'other-result', 'differs' if differ else 'same'] +
+                     ([f'op:{case["op"]}'] if case['form'] in ('unary', 'binary') else []))
+        if differ:
+            bad = next(sp for sp in ZS_SPELLINGS if outs[sp] != outs['int'])
+            w = {'oracle': 'spelling-irrelevant:zero-sign', 'input': case, 'expected': outs['int'], 'actual': outs[bad]}
+            lim.witness(f'zs:{case["form"]}:{case["op"]}' + (':F44' if _is_f44(w) else ''), 'spelling-irrelevant:zero-sign', case, outs['int'], outs[bad],
+                        spelling_of_actual=bad, zero_sign_only=zero_sign_only(outs['int'], outs[bad]), all_outcomes=outs)
+
+
+# ---------------------------------------------------------------------------------------------------------------------
 # Known finding F15
 # ---------------------------------------------------------------------------------------------------------------------
 
@@ -2260,7 +2436,42 @@ def _is_f15(w):
     return len(args) >= 2 and isinstance(args[1], dict) and 'n' in args[1] and args[1]['n'] >= 23
 
 
-FINDING_MATCHERS = {'F15': _is_f15}
+def _int_zero(enc):
+    return isinstance(enc, dict) and enc == {'n': 0}
+
+
+def _mod_zero_neg(args):
+    """integral a, b with b < 0 and a % b == 0"""
+    return (len(args) >= 2 and is_num(args[0]) and is_num(args[1]) and args[1]['n'] < 0 and args[0]['n'] % args[1]['n'] == 0)
+
+
+def _is_f44(w):
+    """Known finding F44, as narrow as the finding: a zero-sign witness whose two outcomes differ ONLY in the sign of a zero result and whose
+    operation is unary minus of the integral 0, or `%` of two integral operands with a negative divisor and remainder zero, or one of the listed
+    expression texts that carry exactly such a result on (F44_PROPAGATION)."""
+    case = w.get('input') or {}
+    if w.get('oracle') != 'spelling-irrelevant:zero-sign' or not isinstance(case, dict) or case.get('kind') != 'zsign':
+        return False
+    exp, act = w.get('expected'), w.get('actual')
+    if not zero_sign_only(exp, act):
+        return False
+    form, op, args = case.get('form'), case.get('op'), case.get('args') or []
+    if form == 'unary':
+        return op == '-' and len(args) == 1 and _int_zero(args[0])
+    if form == 'binary':
+        return op == '%' and _mod_zero_neg(args)
+    if form in ('expr', 'dataexpr'):
+        how = F44_PROPAGATION.get(op)
+        if how == 'neg0':
+            return bool(args) and _int_zero(args[0])
+        if how == 'negdiff':
+            return bool(args) and is_num(args[0])
+        if how == 'mod':
+            return _mod_zero_neg(args)
+    return False
+
+
+FINDING_MATCHERS = {'F15': _is_f15, 'F44': _is_f44}
 
 
 # ---------------------------------------------------------------------------------------------------------------------
@@ -2505,6 +2716,9 @@ def streams(ctx):
     # --- datetime arithmetic on the magnitude scale; histories that start with ==-equal neighbour values (fresh process)
     scale_streams(ctx, lim, sampled)
 
+    # --- the sign of a zero result (known finding F44); implementation-side only
+    zero_sign_stream(ctx, lim, names, models)
+
     # --- correspondence: implementation vs Lean LibH for both spellings (+ the abstract spec)
     st = ctx.stream('libh-model', 'modelled host-level subset (%s): implementation vs Lean LibH on the int, float and alternating spelling and vs '
                                   'the abstract one-number-type function; by-value cases without aliasing; non-trivial = an integral number occurs' % ', '.join(MODELLED))
@@ -2644,6 +2858,8 @@ def search(ctx):
 
 def replay(witness):
     case = witness['input']
+    if case.get('kind') == 'zsign':
+        return zsign_differs(case)[0]
     if case.get('fresh'):
         return fresh_differs([case])[0][0]
     if case['kind'] == 'call':
@@ -2681,15 +2897,17 @@ LEVEL_TEXT = ('Theorems (all arguments, all argument-model tables): for the host
               'both parities, random band values, both signs); datetime arithmetic (datetime + n, n + datetime; operator, script text, data expression) '
               'over 9 bases from year 1 to 9999 x the whole ladder (stream datetime-scale), the data functions over rows of large values (data-scale), '
               'and histories in a fresh interpreter that first produce and print -0.0 / true / false and run the case on every ==-equal neighbour of '
-              'its numbers (neighbour-history) are implementation-side only.')
+              'its numbers (neighbour-history) are implementation-side only, as is the sign-sensitive comparison of zero results (zero-sign: the models are '
+              'over rationals and have no negative zero).')
 LEVEL_NOTE = ('proof for the host-level subset (index/count/size/radix/char-code users); translation-validation strength for the remaining library '
               'functions, where numbers only flow into comparison/arithmetic/stringification and Python int-vs-float mixed operations are exact on '
               'the values (assumption, DESIGN 6) - those are covered by the libnum/operators/script streams, not by a theorem. The model is by-value '
-              '(no aliasing); IEEE rounding enters only as the abstract function rnd in roundNumber_refines. Known: F15. Open observation (reported, '
-              'not registered): -0.0 as an INPUT is outside the quantifier (it is not float(n) of any int n), but unary - on the integral 0 and n % m '
+              '(no aliasing); IEEE rounding enters only as the abstract function rnd in roundNumber_refines. Known: F15, F44. F44 (stream zero-sign, the only '
+              'sign-sensitive comparison; matcher _is_f44 as narrow as the finding): -0.0 as an INPUT is outside the quantifier (it is not float(n) of any int n), but unary - on the integral 0 and n % m '
               'with m < 0 and a zero result RETURN int 0 for the int spelling and -0.0 for the float spelling (runtime.py unary -, %); the two are equal '
-              'by value_compare yet value_string / value_json print "0" vs "-0" (value.py:70), so `\'\' + (-n)` differs by spelling. Results are compared '
-              'by value here (canon_num maps -0.0 to 0), so it is not flagged; no other operator or library function has a spelling-dependent zero sign.')
+              'by value_compare yet value_string / value_json print "0" vs "-0" (value.py:70), so `\'\' + (-n)` differs by spelling. All other streams compare '
+              'results by value (canon_num maps -0.0 to 0); zero-sign runs every operator, library function and expression function sign-sensitively: no other '
+              'operation has a spelling-dependent zero sign, and any new one is a VIOLATION.')
 
 
 # extension: further model code, theorems and streams (DESIGN 13.7)
